@@ -31,7 +31,9 @@ Inductive hir :=
 | HGroup (h : hir)
 | HRep (h : hir) (k : rkind) (greedy : bool).
 
-Record rflags := { nocase : bool; dot_all : bool }.
+(* `wide`: the pattern is matched against UCS-2-like text: every byte consumed must be followed by a
+   NUL byte (and both are consumed); word boundaries look at the neighbouring wide characters. *)
+Record rflags := { nocase : bool; dot_all : bool; wide : bool }.
 
 (* ------------------------------------------------------------------ bytes *)
 Definition in_range (lo hi b : N) : bool := (lo <=? b) && (b <=? hi).
@@ -67,17 +69,24 @@ Definition mask_mem (value mask : N) (negated : bool) (b : N) : bool :=
 
 Definition byte_at (mem : list N) (i : N) : option N := nth_error mem (N.to_nat i).
 
-Definition word_at (mem : list N) (i : N) : bool :=
-  match byte_at mem i with Some b => is_word b | None => false end.
-Definition word_before (mem : list N) (i : N) : bool :=
-  if i =? 0 then false else word_at mem (i - 1).
+Definition is_nul_at (mem : list N) (i : N) : bool :=
+  match byte_at mem i with Some b => b =? 0 | None => false end.
 
-Definition assert_ok (k : akind) (mem : list N) (i : N) : bool :=
+Definition word_at (w : bool) (mem : list N) (i : N) : bool :=
+  match byte_at mem i with
+  | Some b => is_word b && (negb w || is_nul_at mem (i + 1))
+  | None => false
+  end.
+Definition word_before (w : bool) (mem : list N) (i : N) : bool :=
+  if w then (if i <? 2 then false else is_nul_at mem (i - 1) && word_at false mem (i - 2))
+  else (if i =? 0 then false else word_at false mem (i - 1)).
+
+Definition assert_ok (w : bool) (k : akind) (mem : list N) (i : N) : bool :=
   match k with
   | StartLine => i =? 0
   | EndLine => i =? nlen mem
-  | WordBoundary => xorb (word_before mem i) (word_at mem i)
-  | NonWordBoundary => negb (xorb (word_before mem i) (word_at mem i))
+  | WordBoundary => xorb (word_before w mem i) (word_at w mem i)
+  | NonWordBoundary => negb (xorb (word_before w mem i) (word_at w mem i))
   end.
 
 (* ------------------------------------------------------------------ ordered sets of offsets *)
@@ -89,36 +98,53 @@ Fixpoint dedup (l : list N) : list N :=
 
 Definition bind (l : list N) (f : N -> list N) : list N := dedup (flat_map f l).
 
-Definition step1 (p : N -> bool) (mem : list N) (i : N) : list N :=
+Definition step1 (w : bool) (p : N -> bool) (mem : list N) (i : N) : list N :=
   match byte_at mem i with
-  | Some b => if p b then [i + 1] else []
+  | Some b =>
+      if p b then (if w then (if is_nul_at mem (i + 1) then [i + 2] else []) else [i + 1]) else []
   | None => []
   end.
 
 (* ------------------------------------------------------------------ repetitions *)
-(* e{n}: n copies *)
-Fixpoint rep_exact (f : N -> list N) (n : nat) (i : N) : list N :=
+(* The ordered results of a repetition are computed with tables indexed by position, so that the cost
+   stays polynomial when the body can end at several offsets (the naive recursion explores every path).
+   `f p` = ordered ends of one iteration started at p; every end is >= p. *)
+Fixpoint nrange (lo : N) (n : nat) : list N :=
+  match n with O => [] | S n' => lo :: nrange (lo + 1) n' end.
+Definition iota (lo n : N) : list N := nrange lo (N.to_nat n).
+
+Definition lookup (tbl : list (N * list N)) (p : N) : list N :=
+  match find (fun e => fst e =? p) tbl with Some e => snd e | None => [] end.
+
+Definition with_self (greedy : bool) (p : N) (more : list N) : list N :=
+  if greedy then dedup (more ++ [p]) else dedup (p :: more).
+
+(* e{n}: n copies, level by level *)
+Fixpoint rep_exact (f : N -> list N) (n : nat) (s : list N) : list N :=
   match n with
-  | O => [i]
-  | S n' => bind (f i) (rep_exact f n')
+  | O => s
+  | S n' => rep_exact f n' (bind s f)
   end.
 
-(* (e(e(..)?)?)? with k levels *)
-Fixpoint rep_opt (f : N -> list N) (greedy : bool) (k : nat) (i : N) : list N :=
+(* (e(e(..)?)?)? with k levels: level j at position p = one more iteration then level j-1, or stop *)
+Fixpoint rep_opt (f : N -> list N) (greedy : bool) (k : nat) (ps : list N) : N -> list N :=
   match k with
-  | O => [i]
+  | O => fun p => [p]
   | S k' =>
-      let more := bind (f i) (rep_opt f greedy k') in
-      if greedy then dedup (more ++ [i]) else dedup (i :: more)
+      let prev := rep_opt f greedy k' ps in
+      let tbl := map (fun p => (p, with_self greedy p (bind (f p) prev))) ps in
+      lookup tbl
   end.
 
-(* e*: an iteration that consumes nothing is not taken again (it could only repeat results) *)
-Fixpoint rep_star (f : N -> list N) (greedy : bool) (fuel : nat) (i : N) : list N :=
-  match fuel with
-  | O => [i]
-  | S fu =>
-      let more := bind (filter (fun j => negb (j =? i)) (f i)) (rep_star f greedy fu) in
-      if greedy then dedup (more ++ [i]) else dedup (i :: more)
+(* e*: positions are processed from the last one down; an iteration that consumes nothing is not
+   taken again (it could only repeat results) *)
+Fixpoint star_tbl (f : N -> list N) (greedy : bool) (ps_desc : list N) (tbl : list (N * list N))
+  : list (N * list N) :=
+  match ps_desc with
+  | [] => tbl
+  | p :: r =>
+      let more := bind (filter (fun j => negb (j =? p)) (f p)) (lookup tbl) in
+      star_tbl f greedy r ((p, with_self greedy p more) :: tbl)
   end.
 
 Definition rep_bounds (k : rkind) : nat * option nat :=
@@ -131,13 +157,34 @@ Definition rep_bounds (k : rkind) : nat * option nat :=
   | Bounded n m => (N.to_nat n, Some (N.to_nat m))
   end.
 
-Definition rep_ends (f : N -> list N) (k : rkind) (greedy : bool) (fuel : nat) (i : N) : list N :=
-  let (lo, hi) := rep_bounds k in
-  bind (rep_exact f lo i)
-       (match hi with
-        | None => rep_star f greedy fuel
-        | Some hi => rep_opt f greedy (hi - lo)
-        end).
+(* one iteration evaluated at the positions reachable from the seeds only (ascending sweep: an
+   iteration never moves backwards); the table comes out in descending order of position *)
+Fixpoint sweep (f : N -> list N) (ps : list N) (reach : list N) (tbl : list (N * list N))
+  : list (N * list N) :=
+  match ps with
+  | [] => tbl
+  | p :: r =>
+      if existsb (N.eqb p) reach then
+        let e := f p in sweep f r (e ++ reach) ((p, e) :: tbl)
+      else sweep f r reach tbl
+  end.
+
+(* n = length of the haystack *)
+Definition rep_ends (f : N -> list N) (k : rkind) (greedy : bool) (n : N) (i : N) : list N :=
+  match k with
+  | ZeroOrOne => with_self greedy i (f i)
+  | _ =>
+      let (lo, hi) := rep_bounds k in
+      let tblF := sweep f (iota i (n + 1 - i)) [i] [] in
+      let F := lookup tblF in
+      let psd := map fst tblF in
+      let heads := rep_exact F lo [i] in
+      let tail := match hi with
+                  | None => lookup (star_tbl F greedy psd [])
+                  | Some hi => rep_opt F greedy (hi - lo) psd
+                  end in
+      bind heads tail
+  end.
 
 (* ------------------------------------------------------------------ the matcher *)
 Fixpoint ends (fl : rflags) (mem : list N) (h : hir) {struct h} : N -> list N :=
@@ -145,24 +192,20 @@ Fixpoint ends (fl : rflags) (mem : list N) (h : hir) {struct h} : N -> list N :=
   | HAlt l =>
       fun i => dedup ((fix alts (l : list hir) : list N :=
                          match l with [] => [] | h' :: r => ends fl mem h' i ++ alts r end) l)
-  | HAssert k => fun i => if assert_ok k mem i then [i] else []
-  | HClass c => step1 (cls_mem (nocase fl) c) mem
-  | HMask v m neg => step1 (mask_mem v m neg) mem
+  | HAssert k => fun i => if assert_ok (wide fl) k mem i then [i] else []
+  | HClass c => step1 (wide fl) (cls_mem (nocase fl) c) mem
+  | HMask v m neg => step1 (wide fl) (mask_mem v m neg) mem
   | HConcat l =>
       (fix cat (l : list hir) : N -> list N :=
          match l with [] => fun i => [i] | h' :: r => fun i => bind (ends fl mem h' i) (cat r) end) l
-  | HDot => step1 (fun b => dot_all fl || negb (b =? 10)) mem
+  | HDot => step1 (wide fl) (fun b => dot_all fl || negb (b =? 10)) mem
   | HEmpty => fun i => [i]
-  | HLit b => step1 (eq_nocase (nocase fl) b) mem
+  | HLit b => step1 (wide fl) (eq_nocase (nocase fl) b) mem
   | HGroup h' => ends fl mem h'
-  | HRep h' k greedy => rep_ends (ends fl mem h') k greedy (S (length mem))
+  | HRep h' k greedy => rep_ends (ends fl mem h') k greedy (nlen mem)
   end.
 
 (* ------------------------------------------------------------------ derived notions *)
-Fixpoint nrange (lo : N) (n : nat) : list N :=
-  match n with O => [] | S n' => lo :: nrange (lo + 1) n' end.
-Definition iota (lo n : N) : list N := nrange lo (N.to_nat n).
-
 Definition nonempty {A} (l : list A) : bool := match l with [] => false | _ => true end.
 Definition mem_N (x : N) (l : list N) : bool := existsb (N.eqb x) l.
 
